@@ -359,7 +359,8 @@ class Report:
               "coverage": self.cov, "assumptions": assumptions, "wall_s": round(time.time() - self.t0, 2),
               "violations": len(lines), "known_findings_confirmed": sorted(self.known_hits)}
         EVID.mkdir(exist_ok=True)
-        (EVID / f"{self.prop}.json").write_text(json.dumps(ev, indent=1, default=str))
+        if getattr(self, "replay", None) is None:      # a single-case replay does not replace the evidence of the last full run
+            (EVID / f"{self.prop}.json").write_text(json.dumps(ev, indent=1, default=str))
         for l in lines:
             print(l)
         print(f"[{self.prop}] tier={self.tier} seed={self.seed} evaluations={self.cov['evaluations']} distinct={len(self.distinct)} "
